@@ -4,18 +4,19 @@
 set -u
 SEED=$1; DEST=$2; RUN=$3; PKG=${4:-./$DEST/}
 export GOFLAGS=-mod=mod GOPROXY=off GOSUMDB=off GOTOOLCHAIN=local; unset GOWORK
-cd /tmp/confirm_wt || exit 2
+WT=${CONFIRM_WT:-/tmp/confirm_wt}; T=/tmp/confirm_$(basename $WT)
+cd $WT || exit 2
 git checkout -q -- . ; git clean -qfd
 git apply "$SEED/patch.diff" || { echo "CONFIRM: patch does not apply"; exit 1; }
 go build ./... || { echo "CONFIRM: does not build"; exit 1; }
-go test -vet=off -count=1 ./... 2>&1 | grep -E "^(FAIL[[:space:]]+[^[:space:]]|--- FAIL|panic:)" | grep -v "cmd/templ/lspcmd" > /tmp/confirm_suite.txt
-if [ -s /tmp/confirm_suite.txt ]; then echo "CONFIRM: suite differs from baseline:"; head -5 /tmp/confirm_suite.txt; else echo "CONFIRM: suite same as baseline (only lspcmd fails)"; fi
+go test -vet=off -count=1 ./... 2>&1 | grep -E "^(FAIL[[:space:]]+[^[:space:]]|--- FAIL|panic:)" | grep -v "cmd/templ/lspcmd" > ${T}_suite.txt
+if [ -s ${T}_suite.txt ]; then echo "CONFIRM: suite differs from baseline:"; head -5 ${T}_suite.txt; else echo "CONFIRM: suite same as baseline (only lspcmd fails)"; fi
 git checkout -q go.sum go.mod 2>/dev/null
-if [ "$DEST" != "-" ]; then mkdir -p "$DEST"; for f in "$SEED"/*; do case "$f" in *patch.diff|*.md|*.txt) ;; *) [ -f "$f" ] && cp "$f" "$DEST"/ ;; esac; done; fi
-go test -vet=off -count=1 -run "$RUN" $PKG > /tmp/confirm_demo_with.txt 2>&1; rc1=$?
-echo "CONFIRM: demo WITH change exit=$rc1 ($(grep -c '^--- FAIL' /tmp/confirm_demo_with.txt) failing tests)"
+if [ "$DEST" != "-" ]; then mkdir -p "$DEST"; for f in "$SEED"/*; do case "$f" in *patch.diff|*.md|*.txt) ;; *) if [ -f "$f" ]; then cp "$f" "$DEST"/; elif [ -d "$f" ]; then cp -r "$f" "$DEST"/; fi ;; esac; done; fi
+go test -vet=off -count=1 -run "$RUN" $PKG > ${T}_demo_with.txt 2>&1; rc1=$?
+echo "CONFIRM: demo WITH change exit=$rc1 ($(grep -c '^--- FAIL' ${T}_demo_with.txt) failing tests)"
 git apply -R "$SEED/patch.diff"
-go test -vet=off -count=1 -run "$RUN" $PKG > /tmp/confirm_demo_without.txt 2>&1; rc2=$?
+go test -vet=off -count=1 -run "$RUN" $PKG > ${T}_demo_without.txt 2>&1; rc2=$?
 echo "CONFIRM: demo WITHOUT change exit=$rc2"
 git checkout -q -- . ; git clean -qfd
-if [ $rc1 -ne 0 ] && [ $rc2 -eq 0 ]; then echo "CONFIRMED"; else echo "NOT CONFIRMED"; tail -5 /tmp/confirm_demo_without.txt; fi
+if [ $rc1 -ne 0 ] && [ $rc2 -eq 0 ]; then echo "CONFIRMED"; else echo "NOT CONFIRMED"; tail -5 ${T}_demo_without.txt; fi
